@@ -1,3 +1,4 @@
+mod alloc;
 mod c04;
 mod c06;
 mod c13;
@@ -8,6 +9,9 @@ mod gen;
 mod inputs;
 mod registry;
 mod universe;
+
+#[global_allocator]
+static GLOBAL: alloc::Counting = alloc::Counting;
 
 use common::*;
 use gen::{run_type, Cx, Mode};
